@@ -1088,3 +1088,10 @@ Qed.
 
 Theorem collect_call_spec : forall M p s l, 0 < M -> Inv M p s -> Post M p l (collect s l).
 Proof. intros M p s l HM. apply collect_spec. exact HM. Qed.
+
+(* the specification is total for every positive capacity (fuel never runs out) *)
+Theorem greedy_spec_total : forall M x, 0 < M -> exists G, greedy_spec M x = Some G.
+Proof.
+  intros M x HM. destruct (collect_run_greedy M HM true [x]) as (G & H & _).
+  unfold spec_blocks in H. cbn [concat] in H. rewrite app_nil_r in H. exists G. exact H.
+Qed.
